@@ -58,7 +58,18 @@ def case_strategy(draw):
     recs = []
     for _ in range(n):
         d = descs[draw(st.integers(0, nd - 1))]
-        recs.append(posix_only(draw(gen.record_spec(0, desc=d, types=JSON_TYPES))))
+        spec = posix_only(draw(gen.record_spec(0, desc=d, types=JSON_TYPES)))
+        if draw(st.integers(0, 5)) == 0:
+            # text with a lone surrogate that is NOT an escaped byte (half of a cut UTF-16 pair): JSON has a notation
+            # for it (\\ud83d), the value is text like any other
+            for k, ((t, _), v) in enumerate(zip(spec["desc"][1], spec["vals"])):
+                if t in ("string", "wstring") and isinstance(v, str):
+                    # (kept apart from its neighbours: a high surrogate directly followed by a low one IS the JSON
+                    # notation of one astral character - a pair no JSON text can tell from that character)
+                    spec["vals"][k] = v[:3] + "<" + draw(st.sampled_from(["\ud83d", "\ud800", "\udbff", "\udc00", "\udc7f", "\ud83d\ud83d"])) + ">" + v[3:]
+                elif t in ("string[]", "wstring[]") and isinstance(v, list) and v and isinstance(v[0], str):
+                    spec["vals"][k] = [v[0] + "|\udc00"] + list(v[1:])
+        recs.append(spec)
     return {
         "recs": recs,
         "descriptors": draw(st.sampled_from([True, True, False])),
@@ -167,7 +178,11 @@ def check(case, ctx):
         res = impl(write)
         if not res.ok:
             raise Violation("write-raised", "writing %r raised %r" % (records, res), detail=res.type)
-        text = open(p, encoding="utf-8", errors="surrogateescape").read()
+        raw = open(p, "rb").read()
+        try:
+            text = raw.decode("utf-8")  # JSON text is UTF-8: bytes that are not, are not part of a JSON document
+        except UnicodeDecodeError as e:
+            raise Violation("shape/not-utf8", "%s: the output is not UTF-8 text (%s): %r" % (mode, e.reason, raw[max(0, e.start - 20): e.end + 10]))
         # ---- output shape
         try:
             docs = split_documents(text)
